@@ -279,8 +279,10 @@ def main(mod, argv=None):
                 known_seen.setdefault(v["key"], v)
             if budget.get("collect"):
                 for v in r.get("violations", []):
-                    ent = collected.setdefault(v["key"], dict(n=0, what=v.get("what"), case=r.get("case")))
+                    ent = collected.setdefault(v["key"], dict(n=0, what=v.get("what"), case=r.get("case"), cases=[]))
                     ent["n"] += 1
+                    if len(ent["cases"]) < 12:
+                        ent["cases"].append(r.get("case"))
     if build_failed:
         print("BUILD-FAILED", build_failed)
         return 2
@@ -336,6 +338,8 @@ def main(mod, argv=None):
             print("COLLECTED %s n=%d :: %s\n   case=%s" % (k, ent["n"], (ent["what"] or "")[:300], json.dumps(ent["case"])))
         for x in inconcl[:40]:
             print("INCONCLUSIVE ::", x[:200])
+        if os.environ.get("VERIF_COLLECT_OUT"):
+            json.dump(collected, open(os.environ["VERIF_COLLECT_OUT"], "w"), indent=1)
         return 0
     if out_viol:
         for case, cv in out_viol:
